@@ -55,6 +55,15 @@ def refresh_widening(core):
         if s is not post.req_o and s.reset.value > 0:
             free["refresh_postponer_count"] = s
             assume.append(s <= s.reset.value)
+    # refresh_postponing > 1: RefreshSequencer.count resets to postponing-1, so the executer free-runs postponing-1 dummy sequences
+    # right after reset (nothing reaches the DFI: cmd.valid is 0).  A timer that is about to fire belongs to a state reached by
+    # idling, long after those dummy runs: there the sequencer count is 0 and the executer is idle.
+    seq = getattr(refresher, "sequencer", None)
+    if seq is not None:
+        for sq in sorted(local_regs(seq), key=lambda x: x.duid):
+            if sq.reset.value != 0:
+                free["refresh_sequencer_count"] = sq
+                assume.append(sq == 0)
     # the ZQCS timer (DDR3/DDR4 timings) is free-running in the same way: it counts down while no calibration is executing
     zt = getattr(refresher, "zqcs_timer", None)
     if zt is not None:
